@@ -4,7 +4,7 @@ from unitgen import Undecided, VERIF, REPO, WORK
 from props import PROPS
 
 KNOWN = os.path.join(VERIF, "known-findings.txt")
-REPLAY_OUT = os.path.join(VERIF, "replay", "out")
+REPLAY_OUT = os.environ.get("VERIF_REPLAY_OUT") or os.path.join(VERIF, "replay", "out")
 
 
 def load_known():
@@ -70,6 +70,14 @@ def run_verus_unit(pid, u, tier, log):
                 if b["n_splices"] > 0:
                     res["status"] = "undecided"
                     res["reason"] = f"vacuity guard: no verification result for contracted function {b['path']}"
+        # trusted-base guard: a trusted (external_body) function whose body is no longer the one its
+        # assumed contract was validated against makes the result undecided (soft pin: a failing
+        # obligation is still reported as a violation, see above)
+        for b in meta["blocks"]:
+            if b.get("expect_body") and b.get("body_hash") and b["expect_body"] != b["body_hash"] and res["status"] == "verified":
+                res["status"] = "undecided"
+                res["reason"] = (f"trusted-base guard: the body of {b['path']} ({b['file']}) changed (token hash {b['body_hash']}, "
+                                 f"contract validated against {b['expect_body']}); its assumed contract is no longer justified")
         # vacuity guard (b): canary copy must fail, and only in canary-carrying functions
         if u.get("canary") and res["status"] == "verified":
             cmeta = unitgen.generate(u["unit"], tpl, outdir, canary=True, defines=defines, subst=u.get("subst"), frames=u.get("frames"))
@@ -212,7 +220,8 @@ def main(argv):
 
 
 def write_evidence(pid, cfg, tier, seed, vres, kres, violations, known_hits, undecided, wall):
-    os.makedirs(os.path.join(VERIF, "evidence"), exist_ok=True)
+    evdir = os.environ.get("VERIF_EVIDENCE_DIR") or os.path.join(VERIF, "evidence")
+    os.makedirs(evdir, exist_ok=True)
     fns_contract, fns_trusted, norms, samples, trusted_scan = [], [], [], [], {}
     obligations = discharged = 0
     smt_ms = 0
@@ -285,4 +294,4 @@ def write_evidence(pid, cfg, tier, seed, vres, kres, violations, known_hits, und
     }
     ev = {"property_id": pid, "tier": tier, "seed": seed, "level": level, "coverage": cov,
           "assumptions": cfg.get("assumptions", []), "wall_s": round(wall, 2), "violations": len(violations)}
-    json.dump(ev, open(os.path.join(VERIF, "evidence", f"{pid}.json"), "w"), indent=1)
+    json.dump(ev, open(os.path.join(evdir, f"{pid}.json"), "w"), indent=1)
